@@ -555,6 +555,11 @@ CarryExact(route, d) == ~(route = "ugrid" /\ d.topo = "cfrole")
 Tags(m, route, d) ==
     [ mixed |-> ~Uniform(m), node0_unused |-> Node0Unused(m), partial |-> ~IsClosed(m),
       regional |-> m.xrows # <<>>, big |-> m.big,
+      \* a UGRID source stored as the platform integer with a declared fill value of its own, some table padded
+      padded_int64_fill |-> route = "ugrid" /\ d.dtype = "int64" /\ d.fill \in { "m1", "p999" } /\
+                            LET src == UgridStored(m, d) IN
+                            \E T \in { src.face_node, src.edge_node, src.face_edge, src.edge_face } :
+                               T # <<>> /\ \E r \in 1..Len(T) : \E j \in 1..Len(T[r]) : T[r][j] = UgridFill(d),
       nblocks |-> IF route = "exodus" THEN (IF Len(ExoGroups(m, d)) > 1 THEN ">1" ELSE "1") ELSE "-",
       multipart |-> route = "geo" /\ \E g \in Range(GeoGrouping(m, d)) : Len(g) > 1,
       based |-> CASE route \in { "ugrid", "topology", "esmf" } -> d.start [] OTHER -> "-",
